@@ -132,9 +132,19 @@ pub enum Outcome {
 }
 
 pub fn check(seq: &[Fault], case_id: u64) -> Result<Outcome, String> {
-    // reserve a port
-    let l = TcpListener::bind(("127.0.0.1", 0)).map_err(|e| e.to_string())?;
-    let port = l.local_addr().map_err(|e| e.to_string())?.port();
+    // A fixed port outside the kernel's ephemeral range (32768..), unique per case: a port that is closed during a
+    // 'refuse' step must not be handed out to a concurrently running case (its decoder would then talk to our peer).
+    let mut bound = None;
+    for attempt in 0..8u64 {
+        let port = 20_000 + ((case_id % 1500) + attempt * 1500) as u16 % 12_000;
+        if let Ok(l) = TcpListener::bind(("127.0.0.1", port)) {
+            bound = Some((l, port));
+            break;
+        }
+    }
+    let Some((l, port)) = bound else {
+        return Ok(Outcome::Inconclusive("harness: no free loopback port".into()));
+    };
     l.set_nonblocking(true).map_err(|e| e.to_string())?;
     let mut peer = Peer { port, listener: Some(l) };
     let starts_refused = seq.first() == Some(&Fault::Refuse);
@@ -378,7 +388,7 @@ fn run(c: &mut Ctx) {
 fn replay(c: &mut Ctx, case: &Value) {
     c.eval(1);
     let Ok(s) = serde_json::from_value::<Vec<Fault>>(case["faults"].clone()) else { return c.inconclusive("bad replay") };
-    match check(&s, 0) {
+    match check(&s, 1400) {
         Ok(Outcome::Ok { .. }) => {}
         Ok(Outcome::Inconclusive(m)) => c.inconclusive(&m),
         Err(m) => c.fail(m, "c18:tcp", case.clone()),
